@@ -311,3 +311,123 @@ pub fn c19_py(schema: Option<(String, usize, usize)>, extra: usize, out: &mut Ou
         }
     }
 }
+
+// =============================================================================================
+// records() / zoom_records() of the Python binding against the library's own range queries
+// (Python parts of C01-C04: the binding's range handling sits between the caller and get_interval)
+
+/// One query: chromosome, optional start, optional end (None = argument not given).
+pub type PyQuery = (String, Option<i64>, Option<i64>);
+
+/// Runs `records()` for every query on `bytes` (written to a scratch file) through the extension,
+/// by path and from a Python file object, and compares each answer with `expected` (the library's
+/// answer for the range the binding documents: start default 0, end default / clamp = chromosome
+/// length).  `expected[i]` = None means "not judged" (e.g. arguments a 32-bit int cannot hold).
+pub fn py_records_check(bytes: &[u8], bed: bool, queries: &[PyQuery], expected: &[Option<Vec<Vec<String>>>], what: &str, tags: &[String], out: &mut Outcome) {
+    let wd = crate::clifam::workdir();
+    let dir = wd.path();
+    let path = dir.join(if bed { "f.bb" } else { "f.bw" });
+    std::fs::write(&path, bytes).unwrap();
+    let qs: Vec<Value> = queries.iter().map(|(c, s, e)| json!([c, s, e])).collect();
+    let reqs = json!([
+        {"op": "records", "path": path.to_str().unwrap(), "file_object": false, "queries": qs},
+        {"op": "records", "path": path.to_str().unwrap(), "file_object": true, "queries": qs},
+    ]);
+    let res = match py_run(dir, &reqs) {
+        Ok(r) => r,
+        Err(e) => {
+            out.fail("harness_panic", &[], e);
+            return;
+        }
+    };
+    if let Some(d) = res.first().and_then(|r| r.get("died")) {
+        out.fail("python_binding_died", tags, format!("{}: {}", what, d));
+        return;
+    }
+    for (ri, r) in res.iter().enumerate() {
+        let src = if ri == 0 { "path" } else { "file object" };
+        let Some(ok) = r.get("ok") else {
+            out.fail("python_records_failed", tags, format!("{} ({}): {}", what, src, r.get("err").map(|e| e.to_string()).unwrap_or_default()));
+            continue;
+        };
+        let answers = ok["answers"].as_array().cloned().unwrap_or_default();
+        if answers.len() != queries.len() {
+            out.fail("harness_panic", &[], format!("{} answers for {} queries", answers.len(), queries.len()));
+            continue;
+        }
+        for ((q, a), want) in queries.iter().zip(answers.iter()).zip(expected.iter()) {
+            out.count("python_record_queries", 1);
+            let Some(want) = want else {
+                out.count("python_record_queries_not_judged", 1);
+                continue;
+            };
+            match a.get("ok").and_then(|x| x.as_array()) {
+                None => out.fail("python_records_failed", tags, format!("{} ({}) records{:?}: {}", what, src, q, a.get("err").map(|e| e.to_string()).unwrap_or_default())),
+                Some(rows) => {
+                    // rows: [start, end, value-or-rest...]; numbers compared numerically, text verbatim
+                    let got: Vec<Vec<String>> = rows
+                        .iter()
+                        .map(|r| {
+                            r.as_array()
+                                .map(|f| {
+                                    f.iter()
+                                        .map(|x| match x {
+                                            Value::String(s) => s.clone(),
+                                            other => other.to_string(),
+                                        })
+                                        .collect()
+                                })
+                                .unwrap_or_default()
+                        })
+                        .collect();
+                    let same_row = |g: &Vec<String>, w: &Vec<String>| {
+                        g.len() == w.len()
+                            && g.iter().zip(w.iter()).all(|(a, b)| {
+                                a == b
+                                    || match (a.trim_matches('\'').parse::<f64>(), b.parse::<f64>()) {
+                                        (Ok(x), Ok(y)) => same(x, y),
+                                        _ => false,
+                                    }
+                            })
+                    };
+                    if got.len() != want.len() || !got.iter().zip(want.iter()).all(|(g, w)| same_row(g, w)) {
+                        out.fail(
+                            "python_records_differ_from_library_query",
+                            tags,
+                            format!("{} ({}) records{:?}: {} rows {:?}, the library's range query gives {} rows {:?}", what, src, q, got.len(), got.iter().take(4).collect::<Vec<_>>(), want.len(), want.iter().take(4).collect::<Vec<_>>()),
+                        );
+                    }
+                }
+            }
+        }
+    }
+}
+
+/// Queries for one chromosome of length `len`: arguments absent, one-sided, two-sided; small
+/// chromosomes get every range, large ones a boundary alphabet.
+pub fn py_queries_for(name: &str, len: u32, points: &[u32]) -> Vec<PyQuery> {
+    let mut q: Vec<PyQuery> = vec![(name.to_string(), None, None)];
+    let pts: Vec<u32> = if len <= 20 { (0..=len).collect() } else { points.to_vec() };
+    for &p in &pts {
+        q.push((name.to_string(), Some(p as i64), None));
+        q.push((name.to_string(), None, Some(p as i64)));
+    }
+    for (i, &a) in pts.iter().enumerate() {
+        for &b in &pts[i + 1..] {
+            q.push((name.to_string(), Some(a as i64), Some(b as i64)));
+        }
+    }
+    // beyond the end and below zero: clamped by the binding
+    q.push((name.to_string(), Some(-3), Some(len.min(i32::MAX as u32 - 10) as i64 + 5)));
+    q
+}
+
+/// The range the binding documents for a query (None when an argument does not fit its i32).
+pub fn py_effective_range(len: u32, s: Option<i64>, e: Option<i64>) -> Option<(u32, u32)> {
+    if s.map(|v| v > i32::MAX as i64).unwrap_or(false) || e.map(|v| v > i32::MAX as i64).unwrap_or(false) {
+        return None;
+    }
+    let st = s.map(|v| v.max(0) as u32).unwrap_or(0);
+    let en = e.map(|v| (v.max(0) as u32).min(len)).unwrap_or(len);
+    Some((st, en))
+}
